@@ -12,23 +12,59 @@ What is recorded is only what a user of the lock can observe: who holds the lock
 thread enters or leaves its critical section, states in which nobody can run although not everybody is done, exceptions
 out of the lock code.  These observations are judged by TLC (spec/Trace_RWLockAbs.tla against spec/RWLockAbs.tla).
 
+Scheduling points are the operations on synchronisation primitives and, with lines=True, also every source line of
+the lock module that reads or writes shared state (all controlled threads run under sys.settrace): races on counters
+and flags BETWEEN two lock operations (e.g. a test of the light-switch counter after its mutex has been released) are
+explored as well.
+
 For code that uses something the scheduler cannot control there is a fallback with real, pre-emptively scheduled threads
 and bounded waits (randomised, not exhaustive)."""
-import sys, time, random, threading, _thread, itertools
+import sys, dis, time, random, threading, _thread, itertools
 
 from . import sched
 from .common import MachineryError
 
 _SIMPLE = (int, bool, str, float, type(None))
 _counter = itertools.count()
+_WRITES = {"STORE_ATTR", "STORE_SUBSCR", "STORE_GLOBAL", "DELETE_ATTR", "DELETE_SUBSCR", "DELETE_GLOBAL"}
+_PRIM_METHODS = {"acquire", "release", "wait", "wait_for", "notify", "notify_all", "notifyAll", "set", "clear", "is_set", "locked",
+                 "Lock", "RLock", "Condition", "Semaphore", "BoundedSemaphore", "Event"}
+_line_cache = {}
+
+
+def shared_lines(code):
+    """source lines of `code` that are scheduling points of the line-level exploration: lines that WRITE an attribute /
+    item / global, and lines that READ an attribute other than on the way into a call of a synchronisation primitive
+    (that call is a scheduling point of its own).  Lines that only work on locals cannot be observed by other threads
+    (partial-order reduction)."""
+    r = _line_cache.get(code)
+    if r is None:
+        per, line = {}, None
+        for ins in dis.get_instructions(code):
+            if ins.starts_line is not None:
+                line = ins.starts_line
+            per.setdefault(line, []).append(ins)
+        r = set()
+        for line, ins in per.items():
+            if line is None:
+                continue
+            names = [i.opname for i in ins]
+            if _WRITES & set(names):
+                r.add(line)
+                continue
+            attrs = [i.argval for i in ins if i.opname in ("LOAD_ATTR", "LOAD_METHOD")]
+            if attrs and not (attrs[-1] in _PRIM_METHODS and not any(n.startswith(("COMPARE", "IS_OP", "CONTAINS", "POP_JUMP")) for n in names)):
+                r.add(line)
+        _line_cache[code] = r
+    return r
 
 
 class BlackRW:
     _idents = {}
     _pidx = {}
 
-    def __init__(self, path, R, W, passes):
-        self.R, self.W, self.passes, self.path = R, W, passes, path
+    def __init__(self, path, R, W, passes, lines=False):
+        self.R, self.W, self.passes, self.path, self.lines = R, W, passes, path, lines
         self.sched = sched.Scheduler()
         self.ft = sched.FakeThreading(self.sched)
         self.inside = set()
@@ -45,7 +81,27 @@ class BlackRW:
             self.close()
             raise
 
+    # ---- line-level scheduling inside the lock module (every controlled thread runs under sys.settrace)
+    def _tracer(self, frame, event, arg):
+        if event == "call" and frame.f_code.co_filename == self.path and shared_lines(frame.f_code):
+            return self._line_tracer
+        return None
+
+    def _line_tracer(self, frame, event, arg):
+        if event == "line" and frame.f_lineno in shared_lines(frame.f_code):
+            self.sched.park("line", None)       # (SchedAbort out of here unwinds the thread when the run is abandoned)
+        return self._line_tracer
+
     def _cycle(self, w, acq, rel):
+        if self.lines:
+            sys.settrace(self._tracer)
+        try:
+            self._cycle1(w, acq, rel)
+        finally:
+            if self.lines:
+                sys.settrace(None)
+
+    def _cycle1(self, w, acq, rel):
         w.left = self.passes
         while w.left > 0:
             w.phase = "acq"
@@ -174,16 +230,16 @@ def find_thread_locals(root, module=None, limit=2000):
     return out
 
 
-def explore(path, R, W, passes=1, max_states=60000, budget_s=600.0):
+def explore(path, R, W, passes=1, max_states=60000, budget_s=600.0, lines=False):
     """all interleavings of R readers and W writers.  Returns a dict:
     steps: {(op, t, readers_before, writers_before, readers_after, writers_after): (count, example schedule)}
     deadlocks / exceptions: [(schedule, detail)], max_readers_together, states, transitions, complete, uncontrolled"""
     res = {"steps": {}, "deadlocks": [], "exceptions": [], "max_readers": 0, "states": 0, "transitions": 0, "runs": 0,
-           "complete": True, "uncontrolled": set(), "mix": "%dR+%dW x %d" % (R, W, passes), "R": R, "W": W}
+           "complete": True, "uncontrolled": set(), "mix": "%dR+%dW x %d%s" % (R, W, passes, " [line level]" if lines else ""), "R": R, "W": W}
     seen, stack, t0 = set(), [[]], time.time()
     while stack:
         sch = stack.pop()
-        run = BlackRW(path, R, W, passes)
+        run = BlackRW(path, R, W, passes, lines)
         res["runs"] += 1
         try:
             before = run.holders()
